@@ -58,6 +58,22 @@ def gen_case_cfg(g):
     return cfg
 
 
+class DegenerateWorkload(Exception):
+    """The run collapsed to identical particles in some coordinate; the affine preconditioning (x - mean) / std is then
+    undefined and the library's own NaN guard stops the run. Outside what C10 / C17 state; counted, not judged."""
+
+
+def _collapsed(a, exc):
+    if not isinstance(exc, ValueError) or "NaN" not in str(exc):
+        return False
+    try:
+        aff = getattr(a._sampler.preconditioning_transform, "_affine_transform", None)
+        std = None if aff is None else np.asarray(to_np(aff._std), dtype=float)
+        return std is not None and bool((std == 0).any())
+    except Exception:  # noqa: BLE001
+        return False
+
+
 def execute(cfg):
     """Run the configuration; returns dict with populations to judge and probe statistics."""
     import jax  # noqa: F401  (x64 flag set by env)
@@ -71,6 +87,8 @@ def execute(cfg):
     if sampler in ("smc", "emcee_smc", "blackjax_smc"):
         r = recorded.record(cfg, aspire=a, probe=probe)
         if r.exc is not None:
+            if _collapsed(a, r.exc):
+                raise DegenerateWorkload(str(r.exc)) from r.exc
             raise r.exc
         out["run"] = r
         out["history_pops"] = r.pops
@@ -84,6 +102,8 @@ def execute(cfg):
             t2, a2, probe2 = recorded.build(cfg, probe=probe2)
             r2 = recorded.record(cfg, aspire=a2, probe=probe2, rng=np.random.default_rng(999), resume_from=pay["bytes"])
             if r2.exc is not None:
+                if _collapsed(a2, r2.exc):
+                    raise DegenerateWorkload(str(r2.exc)) from r2.exc
                 raise r2.exc
             out["resumed"] = {"run": r2, "probe": probe2, "reported": a2.n_likelihood_evaluations, "from_iteration": pay["iteration"], "flow": a2.flow}
     else:
@@ -107,3 +127,19 @@ def execute(cfg):
         out["reported"] = a.n_likelihood_evaluations
         out["like_rows"] = probe.like_rows
     return out
+
+
+def execute_with_fault(cfg, k):
+    """The same configuration with the user's likelihood failing at its k-th call (SMC samplers and importance sampling).
+    Returns (probe, reported count read from the instance after the failure, exception or None)."""
+    t = Target.from_desc(cfg["target"])
+    probe = Probe(t, recipe=cfg.get("recipe", False), cut_below=cfg.get("cut_below"), fault_like_at=int(k))
+    t, a, probe = recorded.build(cfg, probe=probe)
+    sampler = cfg["sampler"]
+    if sampler in ("smc", "emcee_smc", "blackjax_smc"):
+        r = recorded.record(cfg, aspire=a, probe=probe)
+        exc = r.exc
+    else:
+        res = smcrun.run(a, cfg["n"], sampler, {}, identity=False, max_calls=2000)
+        exc = res.exc
+    return probe, a.n_likelihood_evaluations, exc
